@@ -4,8 +4,8 @@
 //     with the implementation on the same path and arguments (this is also the cross-check of tr_builders);
 //   - evaluates the direct oracles on the implementation's own output (selected by -prop):
 //     C33: argument positions are found by a second run with unique sentinel arguments; in the real run the
-//          literal positions must hold the same tokens and the argument positions the caller's arguments in call
-//          order, formatted independently (base-10 integers, round-tripping floats, EX/PX/EXAT/PXAT units);
+//     literal positions must hold the same tokens and the argument positions the caller's arguments in call
+//     order, formatted independently (base-10 integers, round-tripping floats, EX/PX/EXAT/PXAT units);
 //     C32: flags versus the hand-written classification of Redis commands (parsed from coq/Model/RedisCmds.v).
 package main
 
@@ -51,10 +51,11 @@ type Case struct {
 	Init  uint16   `json:"init,omitempty"`
 	Root  string   `json:"root,omitempty"`
 	Steps []Step   `json:"steps,omitempty"`
-	Term  string   `json:"term,omitempty"` // Build | Cache ; arb: Build | Blocking | ReadOnly | MultiGet
-	Toks  [][]byte `json:"toks,omitempty"` // arb
-	CF    uint16   `json:"cf,omitempty"`   // flags
-	Name  string   `json:"name,omitempty"` // predef
+	Term  string   `json:"term,omitempty"`  // Build | Cache ; arb: Build | Blocking | ReadOnly | MultiGet
+	Toks  [][]byte `json:"toks,omitempty"`  // arb
+	CF    uint16   `json:"cf,omitempty"`    // flags
+	Name  string   `json:"name,omitempty"`  // predef
+	Focus int      `json:"focus,omitempty"` // path, C18 focused search: 1 + index of the step whose string arguments carry their own hash tag
 }
 
 // ---------------------------------------------------------------- the type graph, by reflection
@@ -708,6 +709,10 @@ func genPath(r *gen.Rand, i int) Case {
 		g.tagged = true
 		g.tag = []byte(gen.Pick(r, []string{"t", "user:1", "a", "x{y", "\x01"}))
 	}
+	if len(focuses) > 0 && *prop == "C18" {
+		c.Init = rueidis.VerifBldInitSlot
+		g.tagged, g.tag = true, []byte("t")
+	}
 	var cur *tnode
 	follow := func(name string) bool {
 		for _, m := range cur.methods {
@@ -731,7 +736,20 @@ func genPath(r *gen.Rand, i int) Case {
 			for _, m := range ms {
 				follow(m)
 			}
-			follow(f[1])
+			if *prop == "C18" {
+				// the focused method's string arguments get a hash tag of their own, on a cluster builder: either the
+				// built command is in that tag's slot or the builder refuses the combination
+				c.Init = rueidis.VerifBldInitSlot
+				other := *g
+				g.tagged, g.tag = true, []byte("focus")
+				if follow(f[1]) {
+					c.Focus = len(c.Steps)
+				}
+				*g = other
+				g.tagged, g.tag = true, []byte("t")
+			} else {
+				follow(f[1])
+			}
 		}
 	}
 	if c.Root == "" {
@@ -879,6 +897,9 @@ func runPath(c Case) (res obs.Result) {
 	res.Nontrivial = !b.panicked && len(c.Steps) > 0
 	cmd := strings.Join(b.rootToks, " ")
 	res.Obs = map[string]any{"argv": b.argv, "cf": b.cf, "ks": b.ks, "type": b.typeName, "panic": b.panicMsg, "cmd": cmd}
+	if *prop == "C18" && c.Focus > 0 && c.Focus <= len(c.Steps) {
+		oracleFocusKey(c, b, &res)
+	}
 	if b.panicked {
 		res.Kind = "path-panic"
 		if c.Init != rueidis.VerifBldInitSlot || !strings.Contains(b.panicMsg, "different key slots") {
@@ -894,6 +915,42 @@ func runPath(c Case) (res obs.Result) {
 		oracleFlags(c, b, cmd, &res)
 	}
 	return
+}
+
+// oracleFocusKey: C18 focused search.  The string arguments of step Focus-1 carry the hash tag {focus}, every other
+// string argument another tag.  If that method's parameter is a key, a cluster builder must either refuse the
+// combination or build a command whose Slot() is the slot of "focus".
+func oracleFocusKey(c Case, b built, res *obs.Result) {
+	st := c.Steps[c.Focus-1]
+	hasStr := false
+	for _, a := range st.A {
+		if a.K == "s" || (a.K == "S" && len(a.L) > 0) {
+			hasStr = true
+		}
+	}
+	if !hasStr || b.panicked {
+		return
+	}
+	res.Site, res.Class = b.typeName+"."+st.M, "key-slot"
+	want := crcBitwise([]byte("focus")) % 16384
+	if b.ks != want {
+		res.Oracle = fmt.Sprintf("method %s was given keys with hash tag {focus} (slot %d) on a cluster builder; the command was built with Slot() = %d", st.M, want, b.ks)
+	}
+}
+
+func crcBitwise(b []byte) uint16 {
+	var crc uint16
+	for _, c := range b {
+		crc ^= uint16(c) << 8
+		for i := 0; i < 8; i++ {
+			if crc&0x8000 != 0 {
+				crc = crc<<1 ^ 0x1021
+			} else {
+				crc <<= 1
+			}
+		}
+	}
+	return crc
 }
 
 // oracleArgv: C33, argv part
